@@ -34,7 +34,7 @@ PROPS = {
              "0..4096 bytes incl. ':' LF NUL and non-UTF-8, auxiliary data attached behind the store's back; after "
              "operations the near-miss family of every user's last password is probed (prefixes, extensions, case/bit "
              "flip, whitespace, truncations, trailing NULs, 64-byte padding, SHA-256 of long passwords, another user's "
-             "password).",
+             "password). Round 7: the interference suite c15i (a second process completes an operation between the probe and the first mutating call).",
         trusted=[T_CRYPTO, T_FS],
         partial=["collision resistance of the KDFs (a password with a different key never has the same digest) is a "
                  "cryptographic hypothesis; the run compares verdicts with the harness's own keyEquiv specification"],
@@ -168,7 +168,7 @@ PROPS = {
              "directory operations of each trace; kill replays: the real operation is re-run once per file-system call and "
              "killed with SIGKILL on entry of that call — the directory left behind is judged directly (old / new / absent "
              "or empty reservation, others untouched, residue only in .tmp, check still passes, old password works) and "
-             "compared with killView of the killed run's own trace.",
+             "compared with killView of the killed run's own trace. Round 7: suite c08r — readers with their own Dir beside a writer that alternates parameter sets.",
         trusted=["the standard abstract persistence model (not a model of ext4/xfs); 'torn' over-approximates partial writes",
                  "strace output and the Go trace parser (copy_file_range and read offsets are modelled)", T_GO],
         partial=["power-loss states (lost directory operations, torn data) are the persistence model's, computed by the "
@@ -184,7 +184,7 @@ PROPS = {
         rule="init / add / update / set-admin / remove under strace on populated stores; exhaustive over all states from "
              "the return on x all subsets of pending directory operations; fault sweep: every injectable call of add / "
              "update / set-admin / init failed in turn (ENOSPC/EIO/EACCES/EMFILE) — whenever the operation still reports "
-             "success, durableAtAck is evaluated on the faulted run's trace. Round 6: suite c09r — one Dir used for a warm-up change of every kind, the base directory replaced (or not) behind its back, one more operation under strace -y: the directory fsync must reach the directory that holds the entry.",
+             "success, durableAtAck is evaluated on the faulted run's trace. Round 6: suite c09r — one Dir used for a warm-up change of every kind, the base directory replaced (or not) behind its back, one more operation under strace -y: the directory fsync must reach the directory that holds the entry. Round 7: suite v09u — the agent under strace -f -y: the rewrites of local hash upgrades are fsynced before the rename, the directory after it.",
         trusted=["the standard abstract persistence model", "strace output and the Go trace parser", T_GO],
     ),
     "C14": dict(
@@ -262,7 +262,7 @@ PROPS = {
              "authenticate/exists/list/list-full/check under strace: no mutating event; (d) operations that fail because "
              "another process completed an add / remove / set-admin / update of the same user between the existence "
              "probe and the first mutating call (interfering hasher), or because the name is occupied by a dangling "
-             "symbolic link: the directory must be exactly as it was at that moment.",
+             "symbolic link: the directory must be exactly as it was at that moment. Round 7: a parameter set that cannot hash (Generate fails).",
         trusted=[T_FS, "strace fault injection lands on the intended call (verified per run by the INJECTED tag)", T_CRYPTO],
         partial=["failed_op_changes_nothing holds only up to the commit point: see known finding D10 (error-after-commit)"],
     ),
@@ -366,7 +366,7 @@ PROPS = {
              "/basic-auth and the saslauthd socket whose clients disconnect while the dispatcher is held, then probes "
              "on the agent interface and the socket; descriptor exhaustion: RLIMIT_NOFILE lowered, the table filled, clients "
              "connect with exactly one free descriptor (accept fails with EMFILE), then everything is released and both "
-             "the saslauthd socket and the HTTP listener must answer.",
+             "the saslauthd socket and the HTTP listener must answer. Round 7: suite v10h — the hooks rate limiter through bursts, quiet periods and more changes than the notification channel holds.",
         trusted=[T_GO + ": channel semantics (FIFO, blocking send on a full channel, select/default) are what the "
                  "transition system encodes", T_CRYPTO],
         partial=["'eventually' needs fairness of Go's select and the OS scheduler: runtime hypotheses; the run observes "
